@@ -23,7 +23,7 @@ META = {
                  'lemmas over ordered dictionaries and induction on the declaration list) on a hand-written Gallina model of '
                  'property_wizard.py + differential correspondence and direct predicates on generated class source text',
     'design_ref': 'DESIGN.md section 4 C16',
-    'theorems': ['C16_matrix', 'C16_matrix_size', 'C16_signature', 'C16_many', 'C16_many_fields_first',
+    'theorems': ['C16_matrix', 'C16_matrix_size', 'C16_matrix_both', 'C16_signature', 'C16_many', 'C16_many_fields_first',
                  'C16_assign', 'C16_factory_fresh', 'C16_readonly_untouched'],
     'tables': [],
     'level_text': ('Theorems proved in Coq about an executable model of property_wizard.py + the part of dataclasses it relies on: '
@@ -34,7 +34,8 @@ META = {
     'level_note': ('Trusted: Coq kernel + vm_compute; the hand-written model (no inheritance; typing objects abstracted to seven '
                    'annotation kinds; dataclasses reduced to "class attribute = default, missing argument passes it to the setter"); '
                    'the correspondence harness. typing/dataclasses internals are exercised, not proved.'),
-    'rule': ('matrix: every cell style(4) x default kind(10) x annotation kind(~30), one class each, 4 constructor calls + later '
+    'rule': ('matrix: every cell style(4) x default kind(14, incl. factories returning deque / user object / ever-new value) x annotation '
+             'kind(~40) + the both-annotated variant (2 orders x 5 x 4 x kinds), one class each, 4 constructor calls + later '
              'assignment; random: classes of 1-6 declarations (field properties in the four styles, plain fields, read-only and '
              'ordinary properties), layouts blocks / fields-first / random interleaving, random argument subsets; exotic: shapes '
              'outside the property domain (model comparison only). Non-trivial = class with >= 2 declarations or a default that is '
@@ -80,7 +81,9 @@ def v_coq(vj, ids=None):
 
 
 def fac_src(fj):
-    return fj[1] if fj[0] == 'conc' else 'lambda: [%d]' % fj[1]
+    # user factories are built by `fac(tag)` (module header): it records every call in CALLS and returns, by tag
+    # range, a list / deque / user object / ever-new string / tuple of lists / frozenset / bytearray
+    return fj[1] if fj[0] == 'conc' else 'fac(%d)' % fj[1]
 
 
 def fac_coq(fj):
@@ -88,11 +91,12 @@ def fac_coq(fj):
 
 
 def fd_src(fd):
+    flag = ', init=False' if fd.get('init_false') else ''
     if 'default' in fd:
-        return 'field(default=%s)' % v_src(fd['default'])
+        return 'field(default=%s%s)' % (v_src(fd['default']), flag)
     if 'factory' in fd:
-        return 'field(default_factory=%s)' % fac_src(fd['factory'])
-    return 'field()'
+        return 'field(default_factory=%s%s)' % (fac_src(fd['factory']), flag)
+    return 'field(%s)' % flag[2:]
 
 
 def fd_coq(fd):
@@ -211,7 +215,7 @@ def declared_default(d):
     """Reference: the default a field-property declaration declares (property statement)."""
     st, t, r = d['style'], d['ty'], d.get('rhs')
     if st in ('PubPub', 'UnderUnder') or r is None:      # same name: only the annotation survives
-        return implied(t)
+        return implied(t)                                # (PubBoth: `t` is the PUBLIC annotation)
     if r[0] == 'val':
         return v_tok(r[1])
     x = fd_expect(r[1])
@@ -242,6 +246,11 @@ def rhs_coq(r):
 
 def field_stmts(d):
     k = d['kind']
+    if k == 'prop' and d['style'] == 'PubBoth':
+        # the docs' "make your IDE happier" variant: the public field carries the default, an extra underscored line
+        # (bare / field(init=False) / carrying the default) is also annotated
+        pub, und = ('ann', d['name'], d['ty'], None), ('ann', under(d['name']), d['uty'], d.get('rhs'))
+        return [pub, und] if d.get('pub_first', True) else [und, pub]
     if k == 'prop':
         n = under(d['name']) if d['style'] in ('PubUnder', 'UnderUnder') else d['name']
         return [('ann', n, d['ty'], d.get('rhs'))]
@@ -253,7 +262,7 @@ def field_stmts(d):
 def prop_stmts(d):
     k = d['kind']
     if k == 'prop':
-        n = d['name'] if d['style'] in ('PubUnder', 'PubPub') else under(d['name'])
+        n = d['name'] if d['style'] in ('PubUnder', 'PubPub', 'PubBoth') else under(d['name'])
         return [('prop', n, True)]
     if k == 'ro':
         return [('prop', d['name'], False)]
@@ -274,7 +283,7 @@ def layout(decls, how, r):
         if not ps:
             continue
         fs = field_stmts(d)
-        lo = body.index(fs[0]) + 1 if fs else 0
+        lo = max(body.index(x) for x in fs) + 1 if fs else 0
         pos = r.randint(lo, len(body))
         body[pos:pos] = ps
     return body
@@ -306,8 +315,36 @@ HEADER = '''import datetime
 from dataclasses import dataclass, field
 from typing import *
 from dataclass_wizard import property_wizard
+import collections, itertools
 LOG = []
 ORIG = {}
+CALLS = []
+_CTR = itertools.count()
+
+
+class Axle:
+    def __init__(self, tag):
+        self.tag = tag
+        self.parts = []
+
+
+def fac(tag):
+    def make():
+        CALLS.append(tag)
+        if tag < 20:
+            return [tag]
+        if tag < 30:
+            return collections.deque([tag])
+        if tag < 40:
+            return Axle(tag)
+        if tag < 50:
+            return 'ctr%d-%d' % (tag, next(_CTR))
+        if tag < 60:
+            return ([tag], [])
+        if tag < 70:
+            return frozenset([tag])
+        return bytearray([tag])
+    return make
 
 
 @dataclass
@@ -346,7 +383,8 @@ def gen_fd(r):
         return {'default': gen_value(r)}
     if m < 0.85:
         return {'factory': r.choice([['conc', 'list'], ['conc', 'dict'], ['conc', 'set'], ['conc', 'str'], ['conc', 'int'],
-                                     ['conc', 'tuple'], ['user', r.randint(1, 9)], ['user', r.randint(1, 9)]])}
+                                     ['conc', 'tuple'], ['user', r.randint(1, 9)], ['user', r.choice([21, 25, 31, 36, 41, 47, 52, 63, 74])],
+                                     ['user', r.choice([22, 33, 44, 55, 66, 77])]])}
     return {}
 
 
@@ -440,10 +478,17 @@ def gen_decls(r, n, exotic=False):
         name = gen_name(r, used)
         used.add('_' + name)
         if m < 0.62:
-            st, rhs = r.choice(['PubUnder', 'PubPub', 'UnderPub', 'UnderUnder']), gen_rhs(r)
+            st, rhs = r.choice(['PubUnder', 'PubPub', 'UnderPub', 'UnderUnder', 'PubBoth']), gen_rhs(r)
+            if st == 'PubBoth':
+                if rhs is not None and rhs[0] == 'fd':
+                    rhs = ['fd', dict(rhs[1], init_false=True)]
+                declares = rhs is not None and (rhs[0] == 'val' or 'default' in rhs[1] or 'factory' in rhs[1])
+                out.append({'kind': 'prop', 'style': st, 'name': name, 'ty': gen_ty(r, allow_field=exotic or not declares), 'rhs': rhs,
+                            'uty': gen_ty(r, allow_field=False), 'pub_first': r.random() < 0.7})
+                continue
             # one declared default per field property: where the class-level value survives (different names) and
             # declares a default, the annotation carries no second one (two contradictory sources: exotic stream)
-            two = (not exotic) and st in ('PubUnder', 'UnderPub') and rhs is not None and (rhs[0] == 'val' or rhs[1])
+            two = (not exotic) and st in ('PubUnder', 'UnderPub') and rhs is not None and (rhs[0] == 'val' or 'default' in rhs[1] or 'factory' in rhs[1])
             out.append({'kind': 'prop', 'style': st, 'name': name, 'ty': gen_ty(r, allow_field=not two), 'rhs': rhs})
         elif m < 0.82:
             out.append({'kind': 'plain', 'name': name, 'ty': gen_ty(r, allow_field=False), 'rhs': gen_rhs(r)})
@@ -454,7 +499,7 @@ def gen_decls(r, n, exotic=False):
     if not exotic:
         # dataclasses: required parameters first (field properties always have a default)
         def required(d):
-            return d['kind'] == 'plain' and (d['rhs'] is None or (d['rhs'][0] == 'fd' and not d['rhs'][1]))
+            return is_required(d)
         req = [d for d in out if required(d)]
         rest = [d for d in out if not required(d)]
         first_def = next((i for i, d in enumerate(rest) if d['kind'] in ('prop', 'plain')), len(rest))
@@ -597,7 +642,9 @@ def reference_text(decls, calls, queries, getters):
                     gs.append('%s=!AttributeError' % g)
             return 'log=[%s] get=[%s]' % (lg, ','.join(gs))
         # plain-field factory products that are never logged still exist; they get numbers when first shown (getter)
-        line = 'call=ok ' + snap(log)
+        # user factories are called once per omitted argument, in field order (CALLS)
+        facs = [v[1][4:] for v in (store[d['name']] for d in fs) if isinstance(v, tuple) and v[0] == 'newobj' and v[1].startswith('user')]
+        line = 'call=ok ' + snap(log) + ' fac=[%s]' % ','.join(facs)
         for n, vj in c.get('assign', []):
             d = byname[n]
             v = arg_tok(vj)
@@ -671,7 +718,11 @@ Fixpoint show_calls (c : cls) (getters : list pstr) (calls : list (dict value * 
       match construct c args next with
       | Err e => (S "call=err:" ++ show_err e) :: show_calls c getters rest next
       | Ok r => let '(s, nx) := show_assigns c getters r asg in
-                (S "call=ok " ++ show_snap c (log r) (inst r) getters ++ s) :: show_calls c getters rest nx
+                (S "call=ok " ++ show_snap c (log r) (inst r) getters ++ S " fac=[" ++
+                 join (S ",") (flat_map (fun e => match snd e with
+                                                  | VNew (FacUser t) i => if (next <=? i)%N && (i <? nxt r)%N then [show_N t] else []
+                                                  | _ => [] end) (inst r)) ++ S "]" ++ s)
+                :: show_calls c getters rest nx
       end
   end.
 Definition show_class (b : list stmt) (queries : list pstr) (getters : list pstr)
@@ -734,6 +785,7 @@ MATRIX_ANNS = (BASIC + [['gen', g[0], g[1]] for g in GENS] + [
     ['annot', ['union', [['conc', 'int'], ['conc', 'str']], 'Union'], [['other', "'m'"]]],
 ])
 MATRIX_DK = ['none', 'value', 'value_none', 'field_default', 'field_factory_user', 'field_factory_list', 'field_empty',
+             'field_factory_deque', 'field_factory_obj', 'field_factory_counter', 'ann_factory_obj',
              'ann_default', 'ann_factory', 'ann_empty']
 
 
@@ -741,8 +793,10 @@ def matrix_cases():
     out = []
     for st in ['PubUnder', 'PubPub', 'UnderPub', 'UnderUnder']:
         for dk in MATRIX_DK:
-            for ann in MATRIX_ANNS:
+            for ai, ann in enumerate(MATRIX_ANNS):
                 t, rhs = ann, None
+                if dk in ('field_factory_deque', 'field_factory_obj', 'field_factory_counter', 'ann_factory_obj') and ai % 6:
+                    continue        # the factory zoo does not depend on the annotation: every sixth kind
                 if dk == 'value':
                     rhs = ['val', ['int', 7]]
                 elif dk == 'value_none':
@@ -751,6 +805,12 @@ def matrix_cases():
                     rhs = ['fd', {'default': ['int', 7]}]
                 elif dk == 'field_factory_user':
                     rhs = ['fd', {'factory': ['user', 1]}]
+                elif dk == 'field_factory_deque':
+                    rhs = ['fd', {'factory': ['user', 21]}]
+                elif dk == 'field_factory_obj':
+                    rhs = ['fd', {'factory': ['user', 31]}]
+                elif dk == 'field_factory_counter':
+                    rhs = ['fd', {'factory': ['user', 41]}]
                 elif dk == 'field_factory_list':
                     rhs = ['fd', {'factory': ['conc', 'list']}]
                 elif dk == 'field_empty':
@@ -758,13 +818,37 @@ def matrix_cases():
                 elif dk.startswith('ann_'):
                     if ann[0] == 'ref' or ann[0] == 'annot':
                         continue
-                    fd = {'ann_default': {'default': ['int', 9]}, 'ann_factory': {'factory': ['user', 2]}, 'ann_empty': {}}[dk]
+                    fd = {'ann_default': {'default': ['int', 9]}, 'ann_factory': {'factory': ['user', 2]}, 'ann_empty': {},
+                          'ann_factory_obj': {'factory': ['user', 32]}}[dk]
                     t = ['annot', ann, [['other', "'doc'"], ['field', fd]]]
                 d = {'kind': 'prop', 'style': st, 'name': 'wheels', 'ty': t, 'rhs': rhs}
                 calls = [{'args': {}, 'assign': [['wheels', ['int', 123]]]}, {'args': {'wheels': ['str', '6']}, 'assign': []},
                          {'args': {}, 'assign': []}, {'args': {'wheels': ['new', 33]}, 'assign': [['wheels', ['new', 34]]],
                                                       'positional': ['wheels']}]
                 out.append(make_case([d], layout([d], 'blocks', None), calls, 'matrix/%s/%s' % (st, dk)))
+    # the "both annotated" variant: public field + `_wheels: int [= field(init=False) | field(default=7, init=False) | 7 | factory]`
+    for pub_first in (True, False):
+        for u in ('bare', 'field_init_false', 'field_default', 'value', 'field_factory_obj'):
+            for dk in ('none', 'ann_default', 'ann_factory', 'ann_empty'):
+                if u in ('field_default', 'value', 'field_factory_obj') and dk != 'none':
+                    continue        # one declared default
+                for ai, ann in enumerate(MATRIX_ANNS):
+                    if not pub_first and ai % 3:
+                        continue
+                    t = ann
+                    if dk != 'none':
+                        if ann[0] in ('ref', 'annot'):
+                            continue
+                        fd = {'ann_default': {'default': ['int', 9]}, 'ann_factory': {'factory': ['user', 2]}, 'ann_empty': {}}[dk]
+                        t = ['annot', ann, [['other', "'doc'"], ['field', fd]]]
+                    rhs = {'bare': None, 'field_init_false': ['fd', {'init_false': True}],
+                           'field_default': ['fd', {'default': ['int', 7], 'init_false': True}], 'value': ['val', ['int', 7]],
+                           'field_factory_obj': ['fd', {'factory': ['user', 33], 'init_false': True}]}[u]
+                    d = {'kind': 'prop', 'style': 'PubBoth', 'name': 'wheels', 'ty': t, 'uty': ['conc', 'int'], 'rhs': rhs,
+                         'pub_first': pub_first}
+                    calls = [{'args': {}, 'assign': [['wheels', ['int', 123]]]}, {'args': {'wheels': ['str', '6']}, 'assign': []},
+                             {'args': {}, 'assign': []}]
+                    out.append(make_case([d], layout([d], 'blocks', None), calls, 'matrix/PubBoth/%s/%s' % (u, dk)))
     return out
 
 
